@@ -254,6 +254,9 @@ class workq:
 
         alternatives = []
         for watching, ev in self._waiters:
+            if ev.ready():
+                # already holds a job for its (not yet resumed) puller
+                continue
             if channel in watching or not watching:
                 alternatives.append(ev)
 
